@@ -83,6 +83,19 @@ var respPlaces = []respPlace{
 			"page.tw":            "PAGE-SENTINEL-before @component(\"~card\", {t: " + expr + "}) PAGE-SENTINEL-after",
 		}, "page"
 	}},
+	{"inside-insert-argument", func(n, i int, fault string) (map[string]string, string) {
+		expr := strings.TrimSuffix(strings.TrimPrefix(strings.TrimSpace(fault), "{{"), "}}")
+		if strings.HasPrefix(fault, "@") {
+			expr = "6 / zero"
+		}
+		if i < 0 {
+			expr = "\"fine\""
+		}
+		return map[string]string{
+			"layouts/main.tw": "PAGE-SENTINEL-layout <@reserve(\"title\")|@reserve(\"body\")> PAGE-SENTINEL-layout-end",
+			"page.tw":         "@use(\"~main\")@insert(\"title\", \"PAGE-SENTINEL-title\")@insert(\"body\", " + expr + ")",
+		}, "page"
+	}},
 	{"unknown-name", func(n, i int, fault string) (map[string]string, string) {
 		return map[string]string{"page.tw": "PAGE-SENTINEL-0"}, "no/such/NAME-SENTINEL"
 	}},
@@ -94,8 +107,13 @@ var respPlaces = []respPlace{
 var respFaults = []string{"{{ 1 / zero }}\n", "{{ MISSING_IDENT_SENTINEL }}\n", "{{ rows.nofn() }}\n", "{{ \"s\" + 1 }}\n",
 	// the failing expression is not the first of a list
 	"{{ [\"go\", \"html\", MISSING_IDENT_SENTINEL] }}\n", "{{ \"short text\".truncate(50, MISSING_IDENT_SENTINEL) }}\n", "{{ {a: 1, b: 1 / zero}.a }}\n",
+	// the message holds a percent sign
+	"{{ 7 % \"2\" }}\n", "{{ \"a\" % 3 }}\n",
 	// the page fails in a later pass of a loop, after the loop has produced output
 	"@each(r in rows)PAGE-SENTINEL-inner {{ 6 / (2 - r) }}@end\n"}
+
+// the last two places render a name that is not a page
+var firstNamePlace = len(respPlaces) - 2
 
 var errPageModes = []string{"none", "valid", "missing", "failing"}
 
@@ -103,7 +121,7 @@ func init() {
 	core.Register(&core.Check{
 		ID:    "C17",
 		Level: "exploration",
-		Rule: "cases are all combinations of {debug on, off} x {no custom error page, a valid one, one whose file is missing, one that fails at run time} x templates that succeed, fail at statement i of n for every i (n <= 4) at top level, in pass i of a loop, inside an insert block, inside the layout, inside a component file, inside a slot body, inside a component argument, or name an unknown template or a layout, x 4 run-time fault kinds; the configurations follow each other in one process in seeded order (a stale page cached from another configuration would show). " +
+		Rule: "cases are all combinations of {debug on, off} x {no custom error page, a valid one, one whose file is missing, one that fails at run time} x templates that succeed, fail at statement i of n for every i (n <= 4) at top level, in pass i of a loop, inside an insert block, inside the layout, inside a component file, inside a slot body, inside a component argument, inside the expression of a two-argument insert, or name an unknown template or a layout, x 10 run-time fault kinds (two with a percent sign in the message; the directory name holds one too); sequences of 2-4 configurations without a reset in between that differ in the debug flag only (the last one governs); the configurations follow each other in one process in seeded order (a stale page cached from another configuration would show). " +
 			"A recording http.ResponseWriter captures body and writes; pages, identifiers, file names and the scratch directory carry sentinels, so 'part of the failed page', 'the message' and 'a path' are substring tests; the expected page is selected by the table of the statement. distinct_nontrivial = distinct (configuration, place, fault, position) combinations",
 		Assumptions: []string{
 			"configuration is set through NewTemplate after the verif reset hook (fields are sticky otherwise)",
@@ -124,7 +142,7 @@ func init() {
 						for fault := range respFaults {
 							for n := 1; n <= 4; n++ {
 								for pos := -1; pos < n; pos++ { // -1 = the page succeeds
-									if place >= 7 && (pos != 0 || fault != 0 || n != 1) {
+									if place >= firstNamePlace && (pos != 0 || fault != 0 || n != 1) {
 										continue
 									}
 									combos = append(combos, combo{debug, mode, place, fault, n, pos})
@@ -239,7 +257,97 @@ func init() {
 					}
 				}
 			}}
-			return []core.Section{random, {Name: "response-matrix", Exhaustive: true, N: len(combos) * reps,
+			// several configurations one after the other without a reset in between: the last one governs
+			nSeq := 400
+			if tier == core.Thorough {
+				nSeq = 40000
+			}
+			sequences := core.Section{Name: "configuration-sequences", N: nSeq, Run: func(c *core.Ctx, i int) {
+				mode := errPageModes[c.Rng.Intn(len(errPageModes))]
+				files := map[string]string{"page.tw": "PAGE-SENTINEL-0 {{ MISSING_IDENT_SENTINEL }}", "fine.tw": "PAGE-SENTINEL-fine {{ 1 + 1 }}"}
+				switch mode {
+				case "valid":
+					files["errors/oops.tw"] = customPageSource
+				case "failing":
+					files["errors/oops.tw"] = "CUSTOM-SENTINEL start {{ 1 / 0 }}"
+				}
+				dir := "c17seq-DIRSENTINEL"
+				if err := writeFilesFresh(dir, files); err != nil {
+					c.Inconclusive(err.Error())
+					return
+				}
+				textwire.VerifResetConfig()
+				steps := 2 + c.Rng.Intn(3)
+				var flags []bool
+				for k := 0; k < steps; k++ {
+					flags = append(flags, c.Rng.Intn(2) == 0)
+				}
+				if i%2 == 0 {
+					flags[0], flags[1] = true, false
+				}
+				desc := map[string]any{"custom_error_page": mode, "debug_flags_in_order": fmt.Sprint(flags), "files": describeFiles(files)}
+				c.Input(desc)
+				c.Nontrivial(fmt.Sprint(mode, flags))
+				for k, debug := range flags {
+					cfg := &config.Config{TemplateDir: dir, TemplateExt: ".tw", DebugMode: debug}
+					if mode != "none" {
+						cfg.ErrorPagePath = "errors/oops"
+					}
+					var tpl *textwire.Template
+					var lerr error
+					c.Eval(1)
+					if c.Guard(func() { tpl, lerr = textwire.NewTemplate(cfg) }) {
+						return
+					}
+					if lerr != nil || tpl == nil {
+						c.Violation("response:sequence:load-failed", fmt.Sprintf("step %d did not load: %v", k, lerr), desc)
+						return
+					}
+					rec := newRecorder()
+					var rerr error
+					c.Eval(1)
+					if c.Guard(func() { rerr = tpl.Response(rec, "page", nil) }) {
+						return
+					}
+					body := rec.body.String()
+					sig := "response:sequence"
+					if rerr == nil {
+						c.Violation(sig+":nil-error", fmt.Sprintf("step %d: rendering fails but Response returned nil", k), desc)
+						return
+					}
+					if strings.Contains(body, "PAGE-SENTINEL") {
+						c.Violation(sig+":page-leaked", fmt.Sprintf("step %d: the body contains part of the failed page: %q", k, clipS(body, 300)), desc)
+					}
+					switch {
+					case debug:
+						if strings.Count(body, builtinMarker) != 1 || !strings.Contains(body, "MISSING_IDENT_SENTINEL") || strings.Contains(body, "CUSTOM-SENTINEL") {
+							c.Violation(sig+":debug-on", fmt.Sprintf("step %d sets debug mode on: expected the built-in page with the message, body is %q", k, clipS(body, 300)), desc)
+						}
+					case mode == "valid":
+						if body != customPageText {
+							c.Violation(sig+":debug-off", fmt.Sprintf("step %d sets debug mode off: expected the custom error page, body is %q", k, clipS(body, 300)), desc)
+						}
+					case mode == "none":
+						if strings.Count(body, builtinMarker) != 1 || strings.Contains(body, "MISSING_IDENT_SENTINEL") || strings.Contains(body, "DIRSENTINEL") {
+							c.Violation(sig+":debug-off", fmt.Sprintf("step %d sets debug mode off: expected the built-in page without detail, body is %q", k, clipS(body, 300)), desc)
+						}
+					default:
+						if body != "" {
+							c.Violation(sig+":debug-off", fmt.Sprintf("step %d sets debug mode off and the custom page is unusable: the body must be empty but is %q", k, clipS(body, 300)), desc)
+						}
+					}
+					// a page that renders is unaffected by any of it
+					rec2 := newRecorder()
+					c.Eval(1)
+					if c.Guard(func() { rerr = tpl.Response(rec2, "fine", nil) }) {
+						return
+					}
+					if rerr != nil || rec2.body.String() != "PAGE-SENTINEL-fine 2" {
+						c.Violation(sig+":success", fmt.Sprintf("step %d: the page that renders gave (%q, %v)", k, clipS(rec2.body.String(), 200), rerr), desc)
+					}
+				}
+			}}
+			return []core.Section{random, sequences, {Name: "response-matrix", Exhaustive: true, N: len(combos) * reps,
 				Run: func(c *core.Ctx, i int) {
 					// a seeded permutation, so that configurations alternate inside each worker
 					perm := core.NewRng("C17-perm", c.Seed, i/len(combos)).Perm(len(combos))
@@ -253,7 +361,7 @@ func init() {
 					case "failing":
 						files["errors/oops.tw"] = "CUSTOM-SENTINEL start {{ 1 / 0 }}"
 					}
-					dir := "c17dir-DIRSENTINEL"
+					dir := "c17dir-DIRSENTINEL-50%d%s"
 					if err := writeFilesFresh(dir, files); err != nil {
 						c.Inconclusive(err.Error())
 						return
@@ -287,7 +395,7 @@ func init() {
 					if i%499 == 0 {
 						c.Sample(map[string]any{"debug": cb.debug, "custom_error_page": errPageModes[cb.mode], "place": pl.name, "failing_statement": cb.pos, "returned_error": rerr != nil, "body_bytes": len(body)})
 					}
-					succeeds := cb.pos < 0 && cb.place < 7
+					succeeds := cb.pos < 0 && cb.place < firstNamePlace
 					if pl.name == "inside-loop-pass" {
 						succeeds = cb.pos < 0 || cb.pos > 3
 					}
